@@ -250,6 +250,54 @@ def second_run():
     return required, diff_empty, tr.write_statements()
 
 
+def split_correspondence(ctx, spec0, evos):
+    """the signature reached by simulating a history one evolution per run and all at once: the Lean
+    `stepwise`/`direct` of C04_signature_stepwise_eq_direct next to the real mutation classes"""
+    sig0 = dbrig.sig_from_models(dbrig.build_models(spec0))
+    flags = {'rename_app_label_fixed': bool(ctx.variant.get('rename_app_label_fixed'))}
+    flat = [m for e in evos for m in e]
+
+    def lean(sig_json, muts):
+        out = ctx.driver.ask([{'op': 'simulate', 'sig': sig_json, 'ctx': {'app': 'vapp'},
+                               'mutations': [sigs.model_mutation(m) for m in muts], 'flags': flags}])[0]
+        return out
+    # the model
+    md = lean(sigs.abs_sig(sig0), flat) if ctx.driver else None
+    ms = None
+    if ctx.driver:
+        cur = {'ok': sigs.abs_sig(sig0)}
+        for e in evos:
+            cur = lean(cur['ok'], e)
+            if 'ok' not in cur:
+                break
+        ms = cur
+    # the code
+    rd = sigs.real_simulate(sig0, 'vapp', [sigs.real_mutation(m) for m in flat])
+    cur = ('ok', sig0, 'vapp')
+    for e in evos:
+        cur = sigs.real_simulate(cur[1], 'vapp', [sigs.real_mutation(m) for m in e])
+        if cur[0] != 'ok':
+            break
+    rs = cur
+
+    def norm_real(r):
+        return {'ok': sigs.norm_sig(sigs.abs_sig(r[1]))} if r[0] == 'ok' else {'err': r[1]}
+
+    def norm_model(o):
+        return {'ok': sigs.norm_sig(o['ok'])} if 'ok' in o else {'err': o.get('err')}
+    case = {'spec': spec0, 'evolutions': evos}
+    if md is not None:
+        ctx.corr_case('simulate_direct', norm_model(md) == norm_real(rd), case=case, model=norm_model(md),
+                      impl=norm_real(rd))
+        ctx.corr_case('simulate_stepwise', norm_model(ms) == norm_real(rs), case=case, model=norm_model(ms),
+                      impl=norm_real(rs))
+    ctx.count('split:' + ('same' if norm_real(rd) == norm_real(rs) else 'differs'))
+    if norm_real(rd) != norm_real(rs):
+        ctx.fail(None, 'simulating the history one evolution per run and all in one run gives different signatures',
+                 {'kind': 'split', 'specs': [spec0], 'evolutions': evos,
+                  'stepwise': norm_real(rs), 'direct': norm_real(rd)})
+
+
 def run(ctx):
     evorig.setup()
     quick = ctx.tier == 'quick'
@@ -272,6 +320,8 @@ def run(ctx):
         if h is None:
             continue
         specs, evos = h
+        if all(isinstance(e, list) and not (e and 'app' in e[0]) for e in evos):
+            split_correspondence(ctx, specs[0], evos)
         how = ['evolver', 'evolve', 'migrate'][(tries - 1) % 3] if tries <= len(SCRIPTED) * 3 else \
             ctx.rng.choice(['evolver', 'evolve', 'migrate'])
         seed = ctx.seed * 613 + tries
@@ -411,6 +461,11 @@ def replay(ctx, obj):
         print('nothing to replay in this file: %r' % list(r))
         return 0
     spec0, evos = r['specs'][0], r['evolutions']
+    if r.get('kind') == 'split':
+        before = len(ctx.failures) if hasattr(ctx, 'failures') else 0
+        split_correspondence(ctx, spec0, evos)
+        print('stepwise/direct simulation of the recorded history compared')
+        return 1 if (hasattr(ctx, 'failures') and len(ctx.failures) > before) else 0
     sig = dbrig.sig_from_models(dbrig.build_models(spec0))
     specs = [spec0]
     for e in evos:
